@@ -16,6 +16,7 @@ import (
 	"os/exec"
 	"path/filepath"
 	"reflect"
+	"runtime/debug"
 	"sort"
 	"strconv"
 	"strings"
@@ -274,6 +275,7 @@ func realHelper(mode string, in any, out any) error {
 func main() {
 	for i, a := range os.Args {
 		if a == "-worker" {
+			debug.SetGCPercent(800)
 			var err error
 			scratch, err = os.MkdirTemp("/dev/shm", "verif-c11w-")
 			if err != nil {
